@@ -147,13 +147,13 @@ impl Model for M {
                 if !reason.contains("Timeout") {
                   violation = Some(Violation { key: "C12:lost-reason".into(), msg: format!("participant {p} timed out but the reported reason is {reason}") });
                 }
-                obs.push(format!("lost p{p} after {elapsed}ms lease {:?}", m.lease));
+                obs.push(format!("lost p{p} after {}ms lease {:?}", elapsed.min(61_000), m.lease));
               }
               m.known = false;
               let vis = std::mem::take(&mut m.visible);
               m.parked.extend(vis);
             } else if last_step {
-              obs.push(format!("kept p{p} at {elapsed}ms lease {:?}", m.lease));
+              obs.push(format!("kept p{p} at {}ms lease {:?}", elapsed.min(61_000), m.lease));
             }
           }
         }
@@ -287,7 +287,13 @@ pub fn run(tier: &str) -> i32 {
     let same = a.obs_classes == b.obs_classes && a.violations.keys().collect::<Vec<_>>() == b.violations.keys().collect::<Vec<_>>();
     rep.set("merge_off_crosscheck", json!({"depth": 4, "merged_states": a.states, "stateless_histories": b.states, "same_observations_and_verdicts": same}));
     if !same {
-      rep.machinery_errors.push("merge-off cross-check disagrees: the digest omits something the handlers read".into());
+      let only_a: Vec<_> = a.obs_classes.iter().filter(|x| !b.obs_classes.contains(*x)).take(5).collect();
+      let only_b: Vec<_> = b.obs_classes.iter().filter(|x| !a.obs_classes.contains(*x)).take(5).collect();
+      rep.machinery_errors.push(format!(
+        "merge-off cross-check disagrees: the digest omits something the handlers read (only with merging: {only_a:?}; only without: {only_b:?}; verdict keys {:?} vs {:?})",
+        a.violations.keys().collect::<Vec<_>>(),
+        b.violations.keys().collect::<Vec<_>>()
+      ));
     }
   }
   rep.assumptions = vec![
